@@ -5,7 +5,7 @@ from mc import core, det, domains, sse
 PROPERTY = 'C03'
 ENGINE = 'E1 bounded-exhaustive enumeration of (scheme, configuration point, profile, keyword) through three separate scheme instances'
 LEVEL = 'model_checking'
-DIRECTED_ADDITIONS = 'patterned keys, parties with different object histories, configuration sweep in both directions, server-side parsing with a separately built configuration object, mixed-length identifiers (PiBas)'      # members added during the seeded-change campaign (DESIGN 7); counted under their own vacuity counters
+DIRECTED_ADDITIONS = 'tokens and keys generated until the first two bytes of their wire form have taken every value, patterned keys, parties with different object histories, configuration sweep in both directions, server-side parsing with a separately built configuration object, mixed-length identifiers (PiBas)'      # members added during the seeded-change campaign (DESIGN 7); counted under their own vacuity counters
 
 CHUNK = 40
 
@@ -46,7 +46,7 @@ def case_list(name, label, cfg, tier):
 
 
 def units(tier, seed):
-    return sse.make_units(case_list, tier, CHUNK) + [('sweep/%s' % name, {'sweep': name}) for name in sse.SCHEMES]
+    return sse.make_units(case_list, tier, CHUNK) + [('sweep/%s' % name, {'sweep': name}) for name in sse.SCHEMES] + [('prefix/%s' % name, {'prefix': name}) for name in sse.SCHEMES]
 
 
 def run_case(r, seed, name, label, cfg, profile, kwlen, relation, cache=None):
@@ -172,8 +172,79 @@ def run_sweep(r, seed, name, tier):
                     r.count('sweep-cases')
 
 
+def run_prefix(r, seed, name, tier, only_keyword=None, only_key_index=None):
+    """the leading bytes of random material as an enumerated dimension: tokens (and keys) are generated until the first two bytes of
+    their serialized form have taken EVERY one of the 65536 values (about 730 000 draws; a wire format that begins with a fixed
+    header is recognised after 2000 draws and skipped), and the first object met with each prefix goes through its wire format:
+    deserialize(serialize(x)) serializes to the same bytes and equals x.  A format that sniffs its input's first bytes cannot
+    hide behind 'one token in 65536'."""
+    L = sse.loader(name)
+    db = {b'ab': [b'12345678'[:sse.base_cfg(name).get('param_identifier_size', 8)].ljust(sse.base_cfg(name).get('param_identifier_size', 8), b'x')]}
+    cfg = sse.finalize_cfg(name, sse.base_cfg(name), db)
+    det.seed_case(seed, PROPERTY, 'prefix', name)
+    scheme = L.SSEScheme(cfg)
+    other = L.SSEScheme(json.loads(json.dumps(cfg)))           # the receiving side: its own configuration object, rebuilt from JSON
+    key = scheme.KeyGen()
+    cap = 1500000 if (tier != 'quick' or not name.startswith('CGKO06')) else 120000
+    for what in ('token', 'key'):
+        seen = set()
+        n = 0
+        fixed_header = False
+        while len(seen) < 65536 and n < cap:
+            if what == 'token':
+                w = b'%07d' % n
+                if only_keyword is not None and w != only_keyword:
+                    n += 1
+                    if n > int(only_keyword) + 1:
+                        break
+                    continue
+                obj = scheme.TokenGen(key, w)
+                case = {'scheme': name, 'prefix_coverage': 'token', 'keyword': w}
+            else:
+                if only_keyword is not None:
+                    break
+                obj = scheme.KeyGen()
+                case = {'scheme': name, 'prefix_coverage': 'key', 'key_index': n}
+            n += 1
+            raw = obj.serialize()
+            r['transitions'] += 1
+            pre = raw[:2]
+            if pre in seen:
+                continue
+            seen.add(pre)
+            if n == 2000 and len(seen) < 4:
+                fixed_header = True
+                break
+            r['evaluations'] += 1
+            try:
+                cls = L.SSEToken if what == 'token' else L.SSEKey
+                back = cls.deserialize(raw, other.config)
+                again = back.serialize()
+                same = (back == obj) if type(back).__eq__ is not object.__eq__ else True
+            except Exception as e:
+                r.v(PROPERTY, name, 'roundtrip-raises', '%s/leading-bytes:%s' % (what, type(e).__name__), dict(case, leading_bytes=pre), 'deserialize(serialize(x)) works', core.exc_text(e))
+                break
+            if again != raw or not same:
+                r.v(PROPERTY, name, 'roundtrip-differs', what + '/leading-bytes', dict(case, leading_bytes=pre), 'the same object', 'differs')
+                break
+        if fixed_header:
+            r.count('prefix-coverage-skipped-fixed-header/' + what)
+        else:
+            r.count('prefix-values-covered/' + what, len(seen))
+            r['states'] += len(seen)
+            r['nontrivial'] += 1
+            if len(seen) < 65536 and only_keyword is None:
+                r['caps'].append('C03 leading-bytes coverage of %s %ss stopped at %d draws: %d of 65536 two-byte prefixes' % (name, what, n, len(seen)))
+        r.outcome('prefix/%s/%s' % (what, 'fixed-header' if fixed_header else 'covered'))
+    r.sample({'scheme': name, 'leading_bytes_coverage': 'tokens and keys until all 65536 two-byte prefixes were met'}, limit=1)
+
+
 def run_unit(p, tier, seed):
     r = core.Result()
+    if 'prefix' in p:
+        run_prefix(r, seed, p['prefix'], tier)
+        det.restore()
+        return r
     if 'sweep' in p:
         run_sweep(r, seed, p['sweep'], tier)
         det.restore()
@@ -190,6 +261,10 @@ def run_unit(p, tier, seed):
 
 
 def replay(case, seed):
+    if 'prefix_coverage' in case:
+        r = core.Result()
+        run_prefix(r, seed, case['scheme'], 'thorough', only_keyword=case.get('keyword'))
+        return r['violations']
     if case.get('sweep'):
         full = run_unit({'sweep': case['scheme']}, 'quick', seed)
         return [v for v in full['violations'] if core.dec(v['case']).get('label') == case['label']]
